@@ -128,10 +128,12 @@ def _prop(pid: int, body: bytes) -> bytes:
 
 
 def build_7z(entries, groups=None, coders="copy", *, encode_header=None, attrs="win", mtime=False, dummy=0,
-             with_pack_crc=False, folder_crc=False, always_num_streams=False, names_first=False, skew=None) -> bytes:
+             with_pack_crc=False, folder_crc=False, always_num_streams=False, names_first=False, skew=None,
+             attr_values=None) -> bytes:
     """entries: [(name, kind, data)] with kind in {"dir", "file"}; files with data == b"" are 7z *empty files*.
     groups: sizes of consecutive groups of the non-empty files (one folder each); None = solid.
-    coders: one coder name or one per group.  encode_header: None | "copy" | "lzma" | "lzma2"."""
+    coders: one coder name or one per group.  encode_header: None | "copy" | "lzma" | "lzma2".
+    attr_values: explicit 32-bit attribute values, one per entry (overrides the win / unix defaults)."""
     nonempty = [(n, d) for (n, k, d) in entries if k == "file" and d]
     if groups is None:
         groups = [len(nonempty)] if nonempty else []
@@ -188,6 +190,9 @@ def build_7z(entries, groups=None, coders="copy", *, encode_header=None, attrs="
                     vals.append(0x10 if k == "dir" else 0x20)
                 else:  # p7zip: unix mode << 16 | 0x8000 | windows attribute
                     vals.append(((0o040755 << 16) | 0x8000 | 0x10) if k == "dir" else ((0o100644 << 16) | 0x8000 | 0x20))
+            if attr_values is not None:
+                assert len(attr_values) == len(entries)
+                vals = list(attr_values)
             props.append(_prop(K_ATTRS, b"\x01\x00" + b"".join(struct.pack("<I", v) for v in vals)))
         hdr += bytes([K_FILES]) + fi + b"".join(props) + bytes([K_END])
     hdr += bytes([K_END])
